@@ -357,3 +357,52 @@ func (p *Program) withHelpers(fn *ssa.Function, depth int) []*ssa.Function {
 	}
 	return out
 }
+
+// structLitFields: v is a struct value loaded from a local cell whose fields were stored one by one
+// (a composite literal or a local struct variable); returns field name → stored value (last store wins only
+// if there is exactly one store per field, otherwise the field is omitted).
+func structLitFields(v ssa.Value) map[string]ssa.Value {
+	u, ok := strip(v).(*ssa.UnOp)
+	if !ok || u.Op != token.MUL {
+		return nil
+	}
+	al, ok := u.X.(*ssa.Alloc)
+	if !ok {
+		return nil
+	}
+	st, ok := al.Type().Underlying().(*types.Pointer).Elem().Underlying().(*types.Struct)
+	if !ok {
+		return nil
+	}
+	out := map[string]ssa.Value{}
+	cnt := map[string]int{}
+	for _, r := range *al.Referrers() {
+		fa, ok := r.(*ssa.FieldAddr)
+		if !ok {
+			continue
+		}
+		name := st.Field(fa.Field).Name()
+		for _, r2 := range *fa.Referrers() {
+			if s, ok := r2.(*ssa.Store); ok && s.Addr == ssa.Value(fa) {
+				cnt[name]++
+				out[name] = s.Val
+			}
+		}
+	}
+	for n, k := range cnt {
+		if k != 1 {
+			delete(out, n)
+		}
+	}
+	return out
+}
+
+// paramIdxByName: index (in fn.Params, receiver included) of the parameter with that name, else fallback.
+func paramIdxByName(fn *ssa.Function, name string, fallback int) int {
+	for i, p := range fn.Params {
+		if p.Name() == name {
+			return i
+		}
+	}
+	return fallback
+}
